@@ -1,4 +1,5 @@
 import Momo.Proof.HashTableSummary
+import Momo.Proof.TrEqHashProbe
 import Driver.HashTable
 /-!
 # C01 — Hash set/map contents always equal the abstract set/map
@@ -488,7 +489,52 @@ theorem C01_copy_fits (sp : Spec) (ok : SpecOK sp) (t : Table)
     (h : t.count ≤ capacityOf sp (sp.logStart + 63)) : CopyFits sp t :=
   copyFits_of_cap sp ok t ⟨63, by decide, h⟩
 
+/-! ## The index and capacity arithmetic as translated from the headers
+
+`Momo.Tr.*` (lean/Momo/Translated/HashProbe.lean) are regenerated by tools/translate.py on every check from the current text of
+`BucketBase::GetStartBucketIndex / GetNextBucketIndex / GetMaxProbe`, the `GetNextBucketIndex` of `BucketLimP4`, `BucketOpen2N2`,
+`BucketOpen8`, `HashBucketBase::GetBucketCountShift / CalcCapacity`, the constant shifts of the open-addressing policies and
+`HashSet::pvGetNewLogBucketCount`; `Momo/Proof/TrEqHashProbe.lean` proves them equal to the functions of the model. -/
+
+/-- **the probe path of the translated code is the model's**: in a table of `2^L` buckets (`L ≤ 63`, `bucketCount = size_t{1} << L`)
+the bucket reached after `p ≤ 2^L` rounds of `bucketIndex = GetNextBucketIndex(bucketIndex, hashCode, bucketCount, ++probe)` from
+`GetStartBucketIndex(hashCode, bucketCount)` — all translated — is the model's `seqOf` (linear for BucketBase / LimP4, triangular for
+Open2N2 / Open8); every step is the model's `nextIdx`; and the path reaches every bucket within `2^L` probes. -/
+theorem C01_probe_path_translated (f : TrEq.NextFn) (L h : Nat) (hL : L ≤ 63) :
+    (∀ p, p ≤ 2 ^ L → TrEq.trSeq f L h p = seqOf f.quad L (start L h) p) ∧
+    (∀ (sp : Spec), sp.quad = f.quad → ∀ idx p, idx + p + 1 < 2 ^ 64 → f.next idx (2 ^ L) p = nextIdx sp L idx p) ∧
+    (∀ b, b < 2 ^ L → ∃ p, p < 2 ^ L ∧ TrEq.trSeq f L h p = b) :=
+  ⟨fun p hp => TrEq.trSeq_eq f L h p hL hp, fun sp hq idx p hi => TrEq.tr_nextIdx f sp hq L idx p hi,
+   fun b hb => TrEq.trSeq_surj f L h b hL hb⟩
+
+/-- **the slot search of `pvAddNogrow` over the translated index functions** is the model's `findSlot` (whose result
+`addNogrowGen` uses), and `BucketBase::GetMaxProbe` is the search bound of buckets without an encoder. -/
+theorem C01_slot_search_translated (f : TrEq.NextFn) (sp : Spec) (hq : sp.quad = f.quad) (g : Gen) (h : Nat) (hL : g.L ≤ 63) :
+    findSlot sp g (2 ^ g.L) 0 (start g.L h) = TrEq.trAddProbe f g.L (fun i => isFull sp (bkt sp g.bs i)) h ∧
+    (sp.bound = BoundKind.none → ∀ b, Tr.base_GetMaxProbe g.L = maxProbe sp g.L b) := by
+  refine ⟨TrEq.findSlot_eq_tr f sp hq g h hL, ?_⟩
+  intro hb b
+  rw [TrEq.tr_maxProbe_base g.L (by omega)]
+  simp [maxProbe, hb]
+
+/-- **growth arithmetic as translated**: `HashSet::pvGetNewLogBucketCount` (with `HashBucketBase::GetBucketCountShift` or the constant
+shift of the open-addressing policies) is the model's `newLog` for tables of at most `2^61` buckets, and
+`HashBucketBase::CalcCapacity(1 << L, maxCount)` is the model's `capacityOf` (`L ≤ 62`) — for `maxCount = 1` given the exact value
+`⌊n·5/8⌋` of the one floating-point expression, which the translator leaves uninterpreted. -/
+theorem C01_growth_translated (sp : Spec) (t : Table) (hL : ∀ g ∈ t.gens.head?, g.L ≤ 61) :
+    (if sp.baseShift then Tr.hs_pvGetNewLogBucketCount_base t.gens.isEmpty sp.logStart (t.gens.headD default).L sp.maxCount
+     else Tr.hs_pvGetNewLogBucketCount_open t.gens.isEmpty sp.logStart (t.gens.headD default).L sp.maxCount) = newLog sp t ∧
+    (sp.cap = CapKind.base → ∀ (L : Nat) (capFloat58 : Nat → Nat), L ≤ 62 → (sp.maxCount = 1 → capFloat58 (2 ^ L) = 2 ^ L * 5 / 8) →
+      Tr.base_CalcCapacity capFloat58 (2 ^ L) sp.maxCount = capacityOf sp L) :=
+  ⟨TrEq.tr_newLog sp t hL, fun hc L f hL62 hf => TrEq.tr_capacity_base sp L f hc hL62 hf⟩
+
 /-! ## Non-vacuity: concrete states satisfying the hypotheses -/
+
+-- the translated functions on concrete values: triangular path 7, 8, 10, 13 in 16 buckets; growth 2^10 -> 2^12 (maxCount 4), capacity 2n
+example : (List.range 4).map (TrEq.trSeq .open2n2 4 0x127) = [7, 8, 10, 13] := by decide
+example : Tr.hs_pvGetNewLogBucketCount_base false 4 10 4 = 12 ∧ Tr.hs_pvGetNewLogBucketCount_open false 4 10 3 = 11 := by decide
+example : Tr.base_CalcCapacity (fun _ => 0) 1024 4 = 2048 ∧ Tr.base_CalcCapacity (fun _ => 0) 1024 2 = 1536 := by decide
+
 
 instance decOpOK (sp : Spec) (s : St) : (op : Op) → Decidable (OpOK sp s op)
   | .ins _ _ _ f => inferInstanceAs (Decidable (FaultsOK sp f))
